@@ -129,7 +129,11 @@ AcceptWalkLast(w, k, dead, o) ==
   ELSE IF w.fin = "panic" THEN o.k = "panic"
   ELSE IF k < Len(w.items) THEN o.k = "some" /\ o.v.at = w.items[Len(w.items)].at /\ o.v.sv = RoundUp8(w.items[Len(w.items)].size)
   ELSE o.k = "none"
-\* receiver missing (constructor never returned): only "skipped" is acceptable
+\* for_each on a copy of the iterator visits exactly what repeated next() would: the rest of the walk, in order
+AcceptWalkRest(w, k, dead, o) ==
+  IF dead THEN Controlled(o)
+  ELSE IF w.fin = "panic" THEN o.k = "panic"
+  ELSE o.k = "list" /\ o.v = [i \in 1..(IF k <= Len(w.items) THEN Len(w.items) - k ELSE 0) |-> w.items[k + i].at]
 \* size_hint of a tag iterator is a bound on what the walk still yields: never a panic on a live iterator (it reads
 \* nothing), lo <= remaining <= hi.  A dead iterator (one that has panicked) yields nothing more: lo must be 0.
 AcceptWalkHint(rem, dead, o) ==
@@ -150,6 +154,12 @@ C03_Accept(c, trk, call, o) ==
          IF s.dead \/ s.cp THEN TRUE
          ELSE IF w.fin = "panic" \/ \E i \in 1..Len(rest) : rest[i].size < ModuleBase THEN o.k = "panic"
          ELSE IsVal(o, U64Bytes(Len(rest)))
+    [] call.op = "for_each" /\ HasIt(trk, call.it) /\ ItOf(trk, call.it).kind = "tags" ->
+         LET s == ItOf(trk, call.it) IN AcceptWalkRest(InfoWalk(c.mem), s.k, s.dead, o)
+    [] call.op = "for_each" /\ HasIt(trk, call.it) /\ ItOf(trk, call.it).kind = "module_tags" ->
+         LET s == ItOf(trk, call.it)  w == InfoWalk(c.mem)  ms == ModItems(w) IN
+         IF s.dead \/ s.cp \/ w.fin = "panic" \/ (\E i \in 1..Len(ms) : ms[i].size < ModuleBase) THEN Controlled(o)
+         ELSE o.k = "list" /\ o.v = [i \in 1..(IF s.k <= Len(ms) THEN Len(ms) - s.k ELSE 0) |-> ms[s.k + i].at]
     [] call.op = "size_hint" /\ HasIt(trk, call.it) /\ ItOf(trk, call.it).kind \in {"tags", "module_tags"} ->
          LET s == ItOf(trk, call.it)  w == InfoWalk(c.mem) IN
          IF s.kind = "tags" THEN AcceptWalkHint(WalkRem(w, s.k), s.dead, o)
@@ -552,6 +562,8 @@ C11_Accept(c, trk, call, o) ==
     [] call.op = "htags" -> IF trk.loaded = "hdr" THEN o.k = "unit" ELSE o.k = "skipped"
     [] call.op = "next" /\ HasIt(trk, call.it) /\ ItOf(trk, call.it).kind = "htags" ->
          LET s == ItOf(trk, call.it) IN AcceptHNext(HWalk(c.mem), s.k, s.dead, o)
+    [] call.op = "for_each" /\ HasIt(trk, call.it) /\ ItOf(trk, call.it).kind = "htags" ->
+         LET s == ItOf(trk, call.it) IN AcceptWalkRest(HWalk(c.mem), s.k, s.dead, o)
     [] call.op = "size_hint" /\ HasIt(trk, call.it) /\ ItOf(trk, call.it).kind = "htags" ->
          LET s == ItOf(trk, call.it) IN AcceptWalkHint(WalkRem(HWalk(c.mem), s.k), s.dead, o)
     [] call.op \in {"nth", "count", "last"} /\ HasIt(trk, call.it) /\ ItOf(trk, call.it).kind = "htags" ->
@@ -577,7 +589,7 @@ C09_Accept(c, trk, call, o) ==
   ELSE IF call.op = "hload" /\ ~Has(c, "memx") /\ ~IsNull(call) /\ Len(c.mem) >= 12 /\ U32At(c.mem, 8) < 16
   THEN Controlled(o) /\ AcceptHLoad(FALSE, c.mem, o)
   ELSE IF ~HDbgOk(c, trk, call, o) THEN FALSE
-  ELSE IF call.op \in HeaderOps \/ (call.op \in {"next", "clone", "nth", "count", "last", "size_hint"} /\ HasIt(trk, call.it) /\ ItOf(trk, call.it).kind = "htags")
+  ELSE IF call.op \in HeaderOps \/ (call.op \in {"next", "clone", "nth", "count", "last", "size_hint", "for_each"} /\ HasIt(trk, call.it) /\ ItOf(trk, call.it).kind = "htags")
   THEN /\ Controlled(o)
        /\ LET L == U32At(c.mem, 8) IN \A e \in Exts(o) : Inside(e, 16, L)
   ELSE TRUE
@@ -701,7 +713,7 @@ C20_Accept(c, trk, call, o) ==
 
 \* ---- C01: never outside the region, never a crash, references inside the owning tag ------------
 InfoOps == {"elf_cmp", "cast_item", "nth", "count", "last", "custom_get", "load", "tags", "module_tags", "efi_areas", "elf_sections", "elf_sections_deprecated", "next", "clone",
-            "len", "size_hint", "get", "field", "str", "area", "dbg", "elf_field", "elf_name"}
+            "len", "size_hint", "for_each", "get", "field", "str", "area", "dbg", "elf_field", "elf_name"}
 \* the extent a call's results must stay in
 OwnerExtent(c, trk, call) ==
   LET T == U32At(c.mem, 0) IN
@@ -713,7 +725,7 @@ OwnerExtent(c, trk, call) ==
   ELSE IF call.op = "load" THEN <<0, T>>
   ELSE <<8, T>>
 C01_Accept(c, trk, call, o) ==
-  IF call.op \notin InfoOps \/ (call.op \in {"next", "clone", "len", "size_hint", "nth", "count", "last", "cast_item"} /\ HasIt(trk, call.it)
+  IF call.op \notin InfoOps \/ (call.op \in {"next", "clone", "len", "size_hint", "for_each", "nth", "count", "last", "cast_item"} /\ HasIt(trk, call.it)
                                 /\ ItOf(trk, call.it).kind \in {"htags", "dummy"}) THEN TRUE
   ELSE /\ Controlled(o)
        /\ LET oe == OwnerExtent(c, trk, call) IN \A e \in Exts(o) : Inside(e, oe[1], oe[2])
@@ -825,6 +837,7 @@ DesignCustomGet(c, call) ==
 
 \* the default Iterator::nth / count: repeated next().  left = calls still to make (-1: until None); cnt = items seen
 RECURSIVE DesignIterMany(_, _, _, _, _, _)
+RECURSIVE DesignCollect(_, _, _, _)
 NthView(o, kind) == IF o.k = "some" /\ kind # "elf" THEN Some([at |-> o.v.at, sv |-> IF Has(o.v, "sv") THEN o.v.sv ELSE 40]) ELSE o
 DesignStep(c0, ds, call) ==
   IF Has(c0, "tile") THEN [o |-> TileExpect(c0.tile, call), ds |-> ds] ELSE      \* design = statement for tiled regions
@@ -907,6 +920,10 @@ DesignStep(c0, ds, call) ==
               IF call.op = "nth" THEN [o |-> NthView(r.o, ds.its[call.it].kind), ds |-> r.ds]
               ELSE IF call.op = "last" THEN [o |-> IF r.o.k = "panic" THEN Panic ELSE NthView(r.prev, ds.its[call.it].kind), ds |-> ds]
               ELSE [o |-> IF r.o.k = "panic" THEN Panic ELSE Val(U64Bytes(r.cnt)), ds |-> ds]
+    [] call.op = "for_each" ->       \* the design walks a copy with repeated next(): by construction the rest of the specification's walk
+         IF ~DsHasIt(ds, call.it) THEN [o |-> Skipped, ds |-> ds]
+         ELSE LET r == DesignIterMany(c, ds, call.it, -1, 0, None)  kind == ds.its[call.it].kind IN
+              [o |-> IF r.o.k = "panic" THEN Panic ELSE [k |-> "list", v |-> DesignCollect(c, ds, call.it, <<>>)], ds |-> ds]
     [] call.op \in {"len", "size_hint"} ->
          IF ~DsHasIt(ds, call.it) THEN [o |-> Skipped, ds |-> ds]
          ELSE LET s == ds.its[call.it] IN
@@ -1000,6 +1017,10 @@ DesignIterMany(c, ds, it, left, cnt, prev) ==
   IF r.o.k # "some" THEN [o |-> r.o, ds |-> r.ds, cnt |-> cnt, prev |-> prev]
   ELSE IF left = 1 THEN [o |-> r.o, ds |-> r.ds, cnt |-> cnt + 1, prev |-> r.o]
   ELSE DesignIterMany(c, r.ds, it, IF left < 0 THEN left ELSE left - 1, cnt + 1, r.o)
+\* the offsets of what repeated next() still yields
+DesignCollect(c, ds, it, acc) ==
+  LET r == DesignStep(c, ds, [op |-> "next", it |-> it, names |-> FALSE]) IN
+  IF r.o.k # "some" THEN acc ELSE DesignCollect(c, r.ds, it, Append(acc, r.o.v.at))
 
 \* ---- dispatch -------------------------------------------------------------------------
 \* the image under test: after use_built, the bytes the builder produced (as observed)
